@@ -110,6 +110,9 @@ type Case struct {
 	Params   Params    `json:"params,omitempty"`
 	Steps    []Step    `json:"steps"`
 	Fail     string    `json:"fail,omitempty"`
+	// Guards: the VERIF_GUARDS value of the run that generated the case ("" for hand-written
+	// repros of findings, which must fail unguarded)
+	Guards string `json:"guards,omitempty"`
 }
 
 // Params are per-case parameters outside the step list (kept generic on purpose).
